@@ -68,6 +68,14 @@ def check_state(st, kden, rng):
                         if not close(li, p2(out['load_back'])):
                             viol.append(('load() of an integer typed cycle number differs from the float result', {**case, 'cycles_type': type(Ni).__name__}, p2(out['load_back']), float(li)))
             lbe = wc.load(2.0 ** (out['nd'] + 1260) if out['nd'] + 1260 < 1000 else 2.0 ** 1000, PROB[pg])
+            # cycle numbers beyond the knee as unsigned / signed integer arrays and scalars: as the float value
+            nb_exp = out['nd'] + 3
+            if 0 <= nb_exp <= 31:
+                ref = float(wc.load(2.0 ** nb_exp, PROB[pg]))
+                for Ni in (np.array([2 ** nb_exp], dtype=np.uint64), np.array([2 ** nb_exp], dtype=np.uint32), np.array([2 ** nb_exp], dtype=np.int64), np.uint64(2 ** nb_exp)):
+                    gi = float(np.atleast_1d(np.asarray(wc.load(Ni, PROB[pg]), dtype=np.float64))[0])
+                    if not close(gi, ref, 1e-15):
+                        viol.append(('load() for a cycle number beyond the knee given as %s differs from the float result' % (Ni.dtype,), {**case, 'cycles': 2.0 ** nb_exp}, ref, gi))
             # array / list / Series inputs: element-wise identical to scalar evaluation
             xs = [x - kden, x, x + kden]
             arr = wc.cycles(np.array([2.0 ** v for v in xs]), PROB[pg])
@@ -139,6 +147,27 @@ def check_broadcast(states, kden, rng):
             viol.append(('broadcast evaluation raised %r' % ex, {'curves': len(df)}, None, None))
     if not (df.equals(df0) and loads.equals(loads0)):
         viol.append(('broadcast evaluation modified its operands', {}, None, None))
+    # security factors of per-element curves for a per-element load distribution whose rows are in ANOTHER order: paired by element, not by position
+    try:
+        import pylife.strength.fatigue  # noqa
+        ids = list(df.index)
+        order = ids[1:] + ids[:1]
+        dist = pd.DataFrame({'amplitude': [2.0 ** (pick[0]['out']['sd'] + (i % 3)) for i in range(len(ids))], 'cycles': [2.0 ** (12 + 2 * i) for i in range(len(ids))]},
+                            index=pd.Index(ids, name='element_id')).loc[order]
+        with warnings.catch_warnings():
+            warnings.simplefilter('ignore')
+            sl = df.fatigue.security_load(dist, PROB[pg])
+            sc = df.fatigue.security_cycles(dist, PROB[pg])
+            for eid, row in df.iterrows():
+                want_l = float(row.woehler.load(dist.loc[eid, 'cycles'], PROB[pg])) / dist.loc[eid, 'amplitude']
+                want_c = float(row.woehler.cycles(dist.loc[eid, 'amplitude'], PROB[pg])) / dist.loc[eid, 'cycles']
+                gl, gc = float(sl.loc[eid]), float(sc.loc[eid])
+                if not (close(gl, want_l, 1e-12) and (close(gc, want_c, 1e-12) or (np.isinf(gc) and np.isinf(want_c)))):
+                    viol.append(('security factors of per-element curves for a load distribution given in another row order are not paired element by element',
+                                 {'element': eid, 'curve_order': ids, 'distribution_order': order, 'p': PROB[pg]}, [want_l, want_c], [gl, gc]))
+                    break
+    except Exception as ex:
+        viol.append(('security_load / security_cycles raised %r' % ex, {'curves': len(df)}, None, None))
     return viol[:3], len(df) * len(loads)
 
 
